@@ -405,42 +405,82 @@ func counterAgreement(c *Ctx, rule string) {
 	if wfd == nil {
 		c.viol(rule, "anchor-lost:RangeWriter.write", "", "the range writer's rune loop (utf8.EncodeRune) was not found")
 	} else {
-		key := funcKey(gp, wfd)
-		incBy := map[string]string{}
-		var nlReset, nlInc bool
+		// the unit: the function with the rune encoding, the helpers of the package it hands the rune / its length to
+		// (advanceLineCol(c, n)), and — when the encoding sits in a per-rune helper — the writer method that calls it in
+		// its loop, which is then where From and To are taken
+		lfd := wfd
+		trackBodies := []*ast.BlockStmt{wfd.Body}
+		ginfo := gp.TypesInfo
 		ast.Inspect(wfd.Body, func(n ast.Node) bool {
-			switch n := n.(type) {
-			case *ast.AssignStmt:
-				if n.Tok == token.ADD_ASSIGN && len(n.Lhs) == 1 {
-					var ids []string
-					ast.Inspect(n.Rhs[0], func(m ast.Node) bool {
-						if id, ok := m.(*ast.Ident); ok {
-							if _, isVar := gp.TypesInfo.ObjectOf(id).(*types.Var); isVar {
-								ids = append(ids, id.Name)
-							}
-						}
-						return true
-					})
-					incBy[fieldTail(n.Lhs[0])] = strings.Join(ids, ",")
-				}
-			case *ast.IfStmt:
-				if strings.Contains(types.ExprString(n.Cond), `'\n'`) {
-					for _, st := range n.Body.List {
-						switch st := st.(type) {
-						case *ast.IncDecStmt:
-							if fieldTail(st.X) == "Line" && st.Tok == token.INC {
-								nlInc = true
-							}
-						case *ast.AssignStmt:
-							if len(st.Lhs) == 1 && fieldTail(st.Lhs[0]) == "Col" && types.ExprString(st.Rhs[0]) == "0" && st.Tok == token.ASSIGN {
-								nlReset = true
-							}
+			if call, ok := n.(*ast.CallExpr); ok {
+				if hfn := calleeOf(ginfo, call); hfn != nil && hfn.Pkg() == gp.Types {
+					for _, hfd := range allFuncDecls(gp) {
+						if ginfo.Defs[hfd.Name] == types.Object(hfn) && hfd.Body != nil && hfd != wfd {
+							trackBodies = append(trackBodies, hfd.Body)
 						}
 					}
 				}
 			}
 			return true
 		})
+		hasLoop := func(fd *ast.FuncDecl) bool {
+			for _, st := range fd.Body.List {
+				switch st.(type) {
+				case *ast.RangeStmt, *ast.ForStmt:
+					return true
+				}
+			}
+			return false
+		}
+		if !hasLoop(wfd) {
+			for _, cfd := range allFuncDecls(gp) {
+				if cfd == wfd || cfd.Body == nil || cfd.Recv == nil || recvTypeName(cfd.Recv.List[0].Type) != "RangeWriter" || !hasLoop(cfd) {
+					continue
+				}
+				if containsCallToObj(ginfo, cfd.Body, ginfo.Defs[wfd.Name]) {
+					lfd = cfd
+					trackBodies = append(trackBodies, cfd.Body)
+				}
+			}
+		}
+		key := funcKey(gp, lfd)
+		incBy := map[string]string{}
+		var nlReset, nlInc bool
+		for _, tb := range trackBodies {
+			ast.Inspect(tb, func(n ast.Node) bool {
+				switch n := n.(type) {
+				case *ast.AssignStmt:
+					if n.Tok == token.ADD_ASSIGN && len(n.Lhs) == 1 {
+						var ids []string
+						ast.Inspect(n.Rhs[0], func(m ast.Node) bool {
+							if id, ok := m.(*ast.Ident); ok {
+								if _, isVar := gp.TypesInfo.ObjectOf(id).(*types.Var); isVar {
+									ids = append(ids, id.Name)
+								}
+							}
+							return true
+						})
+						incBy[fieldTail(n.Lhs[0])] = strings.Join(ids, ",")
+					}
+				case *ast.IfStmt:
+					if strings.Contains(types.ExprString(n.Cond), `'\n'`) {
+						for _, st := range n.Body.List {
+							switch st := st.(type) {
+							case *ast.IncDecStmt:
+								if fieldTail(st.X) == "Line" && st.Tok == token.INC {
+									nlInc = true
+								}
+							case *ast.AssignStmt:
+								if len(st.Lhs) == 1 && fieldTail(st.Lhs[0]) == "Col" && types.ExprString(st.Rhs[0]) == "0" && st.Tok == token.ASSIGN {
+									nlReset = true
+								}
+							}
+						}
+					}
+				}
+				return true
+			})
+		}
 		ok := incBy["Col"] != "" && incBy["Col"] == incBy["Index"] && nlReset && nlInc
 		c.check(ok, rule, key+"|position-tracking", c.pos(wfd.Pos()), "Index and Col advance by "+incBy["Col"]+"; newline increments Line and resets Col",
 			fmt.Sprintf("range writer position tracking changed (Col += %q, Index += %q, newline: Line++ %v, Col=0 %v): every returned range — and so every source-map entry — would be wrong", incBy["Col"], incBy["Index"], nlInc, nlReset))
@@ -449,7 +489,7 @@ func counterAgreement(c *Ctx, rule string) {
 		// that the final return builds)
 		fromOK, toOK := false, false
 		loopIdx := -1
-		for i, st := range wfd.Body.List {
+		for i, st := range lfd.Body.List {
 			switch st.(type) {
 			case *ast.RangeStmt, *ast.ForStmt:
 				if loopIdx < 0 {
@@ -468,7 +508,7 @@ func counterAgreement(c *Ctx, rule string) {
 			return found
 		}
 		heldBefore, heldAfter := map[types.Object]bool{}, map[types.Object]bool{}
-		for i, st := range wfd.Body.List {
+		for i, st := range lfd.Body.List {
 			if loopIdx < 0 {
 				break
 			}
@@ -853,6 +893,63 @@ func rawWriteCopiesEveryRune(c *Ctx, rule string) {
 								unconditionalWrite = true
 							}
 						}
+					}
+					return true
+				})
+			}
+			// … or the write is the init statement of an `if` (if err = rw.writeRune(buf, c); err != nil { return }), through a
+			// per-rune helper of the writer whose own write is unconditional
+			writesRune := func(call *ast.CallExpr) bool {
+				if se, ok := call.Fun.(*ast.SelectorExpr); ok && se.Sel.Name == "Write" {
+					return true
+				}
+				if hfn := calleeOf(info, call); hfn != nil && hfn.Pkg() == gp.Types {
+					for _, hfd := range allFuncDecls(gp) {
+						if info.Defs[hfd.Name] != types.Object(hfn) || hfd.Body == nil {
+							continue
+						}
+						for _, hst := range hfd.Body.List {
+							if _, isIf := hst.(*ast.IfStmt); isIf {
+								if is := hst.(*ast.IfStmt); is.Init == nil {
+									continue
+								} else {
+									hst = is.Init
+								}
+							}
+							found := false
+							ast.Inspect(hst, func(z ast.Node) bool {
+								if _, isIf := z.(*ast.IfStmt); isIf {
+									return false
+								}
+								if hc, ok := z.(*ast.CallExpr); ok {
+									if hse, ok := hc.Fun.(*ast.SelectorExpr); ok && hse.Sel.Name == "Write" {
+										found = true
+									}
+								}
+								return true
+							})
+							if found {
+								return true
+							}
+						}
+					}
+				}
+				return false
+			}
+			for _, st := range rs.Body.List {
+				var top ast.Node = st
+				if is, isIf := st.(*ast.IfStmt); isIf {
+					if is.Init == nil {
+						continue
+					}
+					top = is.Init
+				}
+				ast.Inspect(top, func(y ast.Node) bool {
+					if _, isIf := y.(*ast.IfStmt); isIf {
+						return false
+					}
+					if call, ok := y.(*ast.CallExpr); ok && writesRune(call) {
+						unconditionalWrite = true
 					}
 					return true
 				})
